@@ -45,6 +45,7 @@ func runC02(c *Ctx, r *Rec) {
 	checkEmptyOperand(c, r, "D1-empty-operand", c.info("collection"), ms)
 	checkResetCompleteness(c, r, "D1-reset-complete", set)
 	checkReadersWriteNothing(c, r, "D1-readers-write-nothing", set)
+	checkContainsNotDecidedBySizes(c, r, "D1-membership-not-by-sizes", set)
 	checkTypeLockPairing(c, r, "D1-lock-released", set)
 	checkNoDynamicEquality(c, r, "D1-no-dynamic-equality", fileFuncs(c, "collection", set))
 	checkUnsignedSizeMinus(c, r, "D1-unsigned-size-minus", fileFuncs(c, "collection", set))
